@@ -118,6 +118,16 @@ def resolved(path, follow, unreadable, ancestors=()):
     return ('D', kids)
 
 
+def graft(node, rel, sub):
+    """the tree with the node at the relative path replaced"""
+    comps = [c for c in rel.split('/') if c]
+    if not comps:
+        return sub
+    if node[0] != 'D':
+        return node
+    return ('D', [(n, graft(k, '/'.join(comps[1:]), sub) if n == comps[0] else k) for n, k in node[1]])
+
+
 def tree_text(node):
     if node[0] == 'F':
         return 'F'
@@ -306,9 +316,9 @@ def table_layer(rng, node, p_tree=0.5, k=2):
     return 'F' + ','.join('%s:%s' % (hx(p), 'T' if rng.random() < p_tree else 'F') for p in picks)
 
 
-NOT_PATTERNS = ['**/.git/**', '**/*.md', 'src/**', '**/a', '*.txt', '**/secret/**', 'z/**', '**/{a,b}/**', '**/.*', 'doc/**', '**/x.txt', '{a,b}/**',
+NOT_PATTERNS = ['**/{.*,s*}', '**/{a*,d*}', '**/<s*:1>', '**/.git/**', '**/*.md', 'src/**', '**/a', '*.txt', '**/secret/**', 'z/**', '**/{a,b}/**', '**/.*', 'doc/**', '**/x.txt', '{a,b}/**',
                 '**/[a]', 'a/**', '', '**/q/**', '**/A', '*', '**/b', 'c/**']
-GLOBS = ['**', '**/*.txt', '*', '*/*', 'a/**', 'src/**/*.rs', '**/a/**', '{a,b}/**', '**/*.{txt,md}', 'a/*', '**/.git', 'a/b/**', '*/x.txt', '**/[a-c]',
+GLOBS = ['*.*', '?', '[!q]*', '*/?', '*/*.*', '{a,b,c,A,B,x.txt}', '*/{a,b,c,x.txt,y.md}', '?/*.*', '**', '**/*.txt', '*', '*/*', 'a/**', 'src/**/*.rs', '**/a/**', '{a,b}/**', '**/*.{txt,md}', 'a/*', '**/.git', 'a/b/**', '*/x.txt', '**/[a-c]',
          'doc/*.md', '**/?', 'z/q/*', '(?i)a/**', '**/src/**', '[ab]/**', '**/x.txt', 'a/**/*.txt', 'secret/*', '<[a-c]/:1,2>*', '**/é', '', 'a', 'c/**/b']
 
 
@@ -366,7 +376,8 @@ def c13(res, rng, tier, replay=None):
                         tables.append(layer_table(l))
                         layers.append(l)
                     else:
-                        layers.append('N' + hx(rng.choice(NOT_PATTERNS)))
+                        k = rng.choice([1, 1, 2, 3])
+                        layers.append('N' + ','.join(hx(q) for q in rng.sample(NOT_PATTERNS, k)))
                         pure = False
                     layers.append('F')
                 mode = 'P'
@@ -391,6 +402,48 @@ def c13(res, rng, tier, replay=None):
                                     {'case': c.describe(), 'missing (lost entries)': missing[:10], 'extra (read beneath a discarded tree)': extra[:10]})
             if len(res.samples) < 6:
                 res.sample(c.describe())
+        # model-free oracle for negations: [not(patterns), recorder] over a path walk: nothing beneath a directory that an
+        # always-exhaustive pattern matches may be fed downstream (exhaustiveness and matching asked of the implementation)
+        ncases, nmeta = [], []
+        overlapping = [('z/**', '*'), ('**/.git/**', '**/.*'), ('a/**', '**/a'), ('src/**', '*'), ('{a,b}/**', '**/b'), ('doc/**', '*'),
+                       ('**/secret/**', '**/secret'), ('c/**', '?'), ('**/q/**', '**/q')]
+        for _ in range(sizes(tier, 150, 1500)):
+            base, locked = sb.new_tree(rng)
+            node = resolved(base, False, locked)
+            pats = rng.sample(NOT_PATTERNS, rng.choice([1, 2, 3]))
+            if rng.random() < 0.5:
+                pair = list(rng.choice(overlapping))
+                rng.shuffle(pair)
+                pats = pair + ([rng.choice(NOT_PATTERNS)] if rng.random() < 0.3 else [])
+            ncases.append(Case(base, node, 'P', 'F', '-', '-', ['N' + ','.join(hx(q) for q in pats), 'F']))
+            nmeta.append((node, pats))
+        nres = run_cases(ncases)
+        exh = {}
+        allp = sorted(set(q for _, pats in nmeta for q in pats))
+        for q, o in zip(allp, W.run_impl(['glob ' + hx(q) for q in allp])):
+            exh[q] = W.fields(o)[1].get('exh') == 'A'
+        pairs = [(q, [p for p, _ in preorder(node)]) for node, pats in nmeta for q in pats]
+        bits = iter(match_bits(pairs))
+        for (c, pi, pm, a, b), (node, pats) in zip(nres, nmeta):
+            res.evaluations += 1
+            res.nontrivial.add((c.base, tuple(pats)))
+            tie_case(res, c, pi, pm, a, b, 'C13')
+            ms = {q: next(bits) for q in pats}
+            if pi['head'] != 'ok' or any(m is None for m in ms.values()):
+                continue
+            rels = [p for p, _ in preorder(node)]
+            kinds = {p: n[0] for p, n in preorder(node)}
+            dead = [p for j, p in enumerate(rels) if kinds[p] == 'D' and any(exh[q] and ms[q][j] for q in pats)]
+            got = [o['rel_base'] for o in pi['obs'][-1]] if pi['obs'] else []
+            for g_ in got:
+                anc = [d for d in dead if g_ != d and (g_.startswith(d + '/') or d == '')]
+                if anc:
+                    res.oracle_fail('an entry beneath a directory that an exhaustive negation matches was read and fed downstream',
+                                    {'case': c.describe(), 'entry': g_, 'discarded directory': anc[0]})
+                    break
+            lost = [p for p in rels if p not in got and not any(p != d and (p.startswith(d + '/') or d == '') for d in dead)]
+            if lost:
+                res.oracle_fail('an entry that is not beneath a discarded directory was skipped', {'case': c.describe(), 'lost': lost[:10]})
     finally:
         sb.close()
 
@@ -436,6 +489,14 @@ def c16(res, rng, tier, replay=None):
                     seen = [o['rel_base'] for o in pi['obs'][-1]] if pi['obs'] else []
                     if len(seen) != len(set(seen)):
                         res.oracle_fail('a layer observed an entry more than once', {'case': c.describe()})
+            for (c, pi, pm, a, b) in results[start:start + nperm]:
+                if pi['head'] == 'ok' and c.mode == 'P' and all(l.startswith('F') for l in c.layers) and pi['obs']:
+                    exp = expected_feed(c.tree, [layer_table(l) for l in c.layers])
+                    got = [o['rel_base'] for o in pi['obs'][-1]]
+                    if got != exp:
+                        res.oracle_fail('a filter does not observe exactly the entries that are not beneath a discarded tree',
+                                        {'case': c.describe(), 'missing': [p for p in exp if p not in got][:10], 'extra': [p for p in got if p not in exp][:10]})
+                        break
             if ys and any(sorted(y) != sorted(ys[0]) for y in ys):
                 c0 = results[start][0]
                 res.oracle_fail('stacking the same combinators in a different order yields different entries',
@@ -512,8 +573,19 @@ def glob_cases(sb, rng, ntrees, per_tree, behaviours=False, faults=False):
     g = G.ExprGen(rng, wild=0.0, maxdepth=2)
     for _ in range(ntrees):
         base, locked = sb.new_tree(rng, faults=faults)
+        dirs = []
+        if behaviours:
+            for dp, dns, fns in os.walk(base):
+                for d in dns:
+                    q = os.path.join(dp, d)
+                    if not os.path.islink(q):
+                        dirs.append(os.path.relpath(q, base))
         for _ in range(per_tree):
             e = rng.choice(GLOBS) if rng.random() < 0.7 else g.glob()
+            if dirs and rng.random() < 0.4:
+                # a literal prefix that exists in this tree (escaped), followed by a variant tail
+                d = rng.choice(dirs)
+                e = ''.join('\\' + ch if ch in '?*$:<>()[]{},' else ch for ch in d) + rng.choice(['/**', '/*', '/**/*', '/*/*'])
             if not safe_glob(e) or prefix_through_link(base, e):
                 continue
             link = 'T' if (behaviours and rng.random() < 0.5) else 'F'
@@ -524,6 +596,10 @@ def glob_cases(sb, rng, ntrees, per_tree, behaviours=False, faults=False):
                     lo, hi = sorted([rng.randint(0, 4), rng.randint(0, 4)])
                     mind, maxd = (str(lo) if lo > 0 and rng.random() < 0.8 else '-'), (str(hi) if rng.random() < 0.8 else '-')
             node = resolved(base, link == 'T', locked)
+            pre = _PREFIX.get(e, '').strip('/')
+            if pre and link == 'T' and os.path.isdir(os.path.join(base, pre)):
+                # loop detection only knows the ancestors inside the walk, which starts at the prefix directory
+                node = graft(node, pre, resolved(os.path.join(base, pre), True, locked))
             cases.append(Case(base, node, glob_mode(e), link, mind, maxd, []))
             nodes.append((node, e))
     return cases, nodes
@@ -538,7 +614,9 @@ def c02(res, rng, tier, replay=None):
                 'read-back of the tree (os.scandir) filtered with is_match on the base-relative path, compared with the walk as sets, each once')
     sb = Sandbox('C02')
     try:
-        cases, nodes = glob_cases(sb, rng, ntrees, 6)
+        cases, nodes = glob_cases(sb, rng, ntrees // 2, 6)
+        cases2, nodes2 = glob_cases(sb, rng, ntrees - ntrees // 2, 6, faults=True)      # trees with links (read as files)
+        cases, nodes = cases + cases2, nodes + nodes2
         results = run_cases(cases)
         pairs = []
         for (c, pi, pm, a, b), (node, e) in zip(results, nodes):
@@ -551,7 +629,7 @@ def c02(res, rng, tier, replay=None):
             tie_case(res, c, pi, pm, a, b, 'C02')
             if pi['head'] != 'ok' or bs is None:
                 continue
-            exp = sorted(p for (p, _), m in zip(preorder(node), bs) if m)
+            exp = sorted(p for (p, n_), m in zip(preorder(node), bs) if m and n_[0] != 'E')
             got = [y['rel_base'] for y in pi['yield'] if y['k'] == 'e']
             res.count('yields', len(got))
             if '' in exp and '' not in got:
@@ -688,8 +766,19 @@ def c03(res, rng, tier, replay=None):
                 if rng.random() < 0.25:
                     pats.append(rng.choice(NOT_PATTERNS))
                 pats = [p for p in pats if not rooted_or_dotted(p)] or ['**/a']
-                mode = 'P' if rng.random() < 0.65 else glob_mode(rng.choice(['**', '**/*.txt', 'a/**', '*/**', 'src/**', '**/a/**', 'a/**/*.txt']))
+                mode = 'P' if rng.random() < 0.6 else glob_mode(rng.choice(['**', '**/*.txt', 'a/**', '*/**', 'src/**', '**/a/**', 'a/**/*.txt',
+                                                                            '{a,b,src}/**', '[a-c]/**', '?/**/*', '{a,b,c,src,doc}/*/**', '[!.]*/**']))
                 cases.append(Case(base, node, mode, 'F', '-', '-', ['N' + ','.join(hx(p) for p in pats)]))
+                cases.append(Case(base, node, mode, 'F', '-', '-', []))
+                meta.append(pats)
+            # tree-aware: the underlying glob walk prunes one top-level directory by its component program and the
+            # negation matches that same directory exhaustively
+            tops = [n for n, k in node[1] if k[0] == 'D' and not any(ch in n for ch in '?*$:<>()[]{},')] if node[0] == 'D' else []
+            if len(tops) >= 2:
+                d1, d2 = rng.sample(tops, 2)
+                mode = glob_mode('{%s,zzz}/**' % d1)
+                pats = [d2 + '/**']
+                cases.append(Case(base, node, mode, 'F', '-', '-', ['N' + hx(pats[0])]))
                 cases.append(Case(base, node, mode, 'F', '-', '-', []))
                 meta.append(pats)
         results = run_cases(cases)
